@@ -23,7 +23,10 @@ func closeRel(a, b float64) bool {
 // buildByHistory produces a Database whose Commands equal cmds through one of the
 // documented histories, and reports which one.
 func buildByHistory(t *rapid.T, cmds []database.Command, o gen.CmdOpts) (*database.Database, string) {
-	hist := rapid.SampledFrom([]string{"load", "merge", "replace", "grow"}).Draw(t, "history")
+	hist := rapid.SampledFrom([]string{"load", "merge", "replace", "grow", "edit-grow"}).Draw(t, "history")
+	if hist == "edit-grow" && len(cmds) < 3 {
+		hist = "grow"
+	}
 	switch hist {
 	case "merge":
 		k := rapid.IntRange(0, len(cmds)).Draw(t, "split")
@@ -49,6 +52,25 @@ func buildByHistory(t *rapid.T, cmds []database.Command, o gen.CmdOpts) (*databa
 		src := gen.Load(t, cmds) // commands as real callers have them (cache fields populated)
 		cdb.UpdateDatabase(src.Commands)
 		return cdb.Database, hist
+	case "edit-grow":
+		// a searched database whose entries are then rewritten IN PLACE (same backing array, spare
+		// capacity: the filter idiom `kept := list[:0]`, or overwriting elements) and extended
+		k := rapid.IntRange(1, len(cmds)-2).Draw(t, "edit-from")
+		old := cloneCmds(cmds[:k+1])
+		for i := range old {
+			if rapid.Bool().Draw(t, "was-other") {
+				old[i] = gen.Command(o).Draw(t, "old-entry") // what stood there before the edit
+			}
+		}
+		db := gen.Load(t, old[:k])
+		last := gen.Load(t, old[k:])
+		// grown once into an array with room to spare, and searched there
+		db.Commands = append(append(make([]database.Command, 0, len(cmds)+4), db.Commands...), last.Commands...)
+		db.SearchUniversal("find files", database.SearchOptions{Limit: 5, UseNLP: true})
+		final := gen.Load(t, cmds)
+		copy(db.Commands[:k+1], final.Commands[:k+1])              // rewritten in place
+		db.Commands = append(db.Commands, final.Commands[k+1:]...) // extended within the same array
+		return db, hist
 	case "grow":
 		k := rapid.IntRange(0, len(cmds)).Draw(t, "grow-from")
 		db := gen.Load(t, cmds[:k])
@@ -257,8 +279,8 @@ func c03Property(t *rapid.T) {
 func TestC03_Scan(t *testing.T) {
 	r := stat.For("C03")
 	r.Rule("database (any field contents, duplicates, empty fields, Unicode pool) x history in {load, merge main+notebook, CachedDatabase.UpdateDatabase, direct growth of Commands} x query from the database vocabulary x per-term boosts x pipeline-only; NLP and fuzzy off, Limit >= N. Oracle: independent tokenizer + BM25F scorer over the command texts (set equality both ways; scores within 1e-9 relative for distinct query terms; the weaker first-four claim for >10 content words) and equality with a freshly loaded database (NLP off and on). Non-trivial = result set neither empty nor everything.")
-	for _, h := range []string{"load", "merge", "replace", "grow"} {
-		r.RequireShare("history:"+h, 0.10)
+	for _, h := range []string{"load", "merge", "replace", "grow", "edit-grow"} {
+		r.RequireShare("history:"+h, 0.08)
 	}
 	r.RequireShare("multi-field-hit", 0.20)
 	r.RequireShare("ubiquitous-term-25+", 0.02)
